@@ -59,6 +59,7 @@ type Contract struct {
 	TrustPre    []string  // callees (short names) whose preconditions are assumed, not proved, at the call sites in this function
 	Private     []string  // heap keys (modifies syntax) that calls without a contract are assumed not to change, see private.go
 	Opaque      []string  // callees (by short name) treated as unknown calls inside this function: full havoc, no use of their contract
+	Uses        []string  // lemmas assumed in this function
 }
 
 type SpecFn struct {
@@ -140,7 +141,7 @@ func newContractSet() *ContractSet {
 }
 
 var clauseKw = map[string]bool{"props": true, "tier": true, "requires": true, "ensures": true, "modifies": true, "loop": true,
-	"panics": true, "inline": true, "pure": true, "assumes": true, "universe": true, "fresh": true, "params": true, "note": true, "funcparam": true, "ghostset": true, "rangeloop": true, "unreachable": true, "dyncall": true, "opaque": true, "private": true, "splitposts": true, "trustpre": true}
+	"panics": true, "inline": true, "pure": true, "assumes": true, "universe": true, "fresh": true, "params": true, "note": true, "funcparam": true, "ghostset": true, "rangeloop": true, "unreachable": true, "dyncall": true, "opaque": true, "private": true, "splitposts": true, "trustpre": true, "uses": true}
 
 var topKw = map[string]bool{"chancount": true, "changhost": true, "lockonly": true, "lockinv": true, "lockguar": true, "ufunc": true, "smtaxiom": true, "func": true, "trusted": true, "spec": true, "ghost": true, "lemma": true, "axiom": true, "purepkg": true}
 
@@ -483,6 +484,12 @@ func (cs *ContractSet) parseFile(fset *token.FileSet, f *ast.File, pkgPath strin
 				for _, m := range splitTop(it.rest) {
 					if m = strings.TrimSpace(m); m != "" {
 						cur.Private = append(cur.Private, strings.Fields(m)...)
+					}
+				}
+			case "uses":
+				for _, m := range splitTop(it.rest) {
+					if m = strings.TrimSpace(m); m != "" {
+						cur.Uses = append(cur.Uses, m)
 					}
 				}
 			case "opaque":
